@@ -4,7 +4,7 @@
 import json, os, re, subprocess, sys, glob
 V = os.path.dirname(os.path.dirname(os.path.abspath(__file__)))
 RELATED = {'C06': ['C06', 'C07', 'C08'], 'C07': ['C07', 'C06'], 'C08': ['C08', 'C06'], 'C04': ['C04', 'C15'], 'C15': ['C15', 'C04'],
-           'C10': ['C10', 'C14', 'C11'], 'C14': ['C14', 'C10', 'C12'], 'C11': ['C11', 'C10'], 'C12': ['C12', 'C14']}
+           'C10': ['C10', 'C14', 'C11'], 'C14': ['C14', 'C10', 'C12'], 'C11': ['C11', 'C10'], 'C12': ['C12', 'C14', 'C13'], 'C13': ['C13', 'C12']}
 only = sys.argv[1:]
 reg = json.load(open(os.path.join(V, 'contracts', 'units.json')))
 rows = []
